@@ -18,6 +18,11 @@ spec -> code : TLC emits, for every basis field (and pair sums in thorough), the
                    sympy.diff, no curvilinear formula involved).  Where that Cartesian field is a polynomial it is
                    handed to TLC, which decides; the others are decided by the harness (counted separately as
                    outside the TLC-decided fragment).
+               (d) scalar fields with radicals / absolute values of signed coordinates, at one exact point in every octant:
+                   m * |x_v|^3 written as m * (x_v^2)^(3/2) in all three systems - TLC-decided, the model carries the
+                   sign of the point's coordinate (FieldOps AbsLocal) - and a few non-polynomial fields given natively in
+                   cylindrical / spherical coordinates (r*(z^2)^(3/2), sqrt(r^2+z^2), ...), decided by the harness against
+                   the Cartesian sympy.diff of the same field.
 code -> spec : every value the real operators returned at a point for a polynomial field is written to a JSON
                trace; spec/FieldOpsTrace.tla lets TLC recompute it from the coefficient maps (Pad, Grad, Div,
                Curl, PEval) and reject differing records.  The verdict on those is TLC's.
@@ -116,7 +121,7 @@ def _call(out, key, fn):
         return None
 
 
-def _compare(out, key, op, given, info, pt, observed, expected=None, record=True):
+def _compare(out, key, op, given, info, pt, observed, expected=None, record=True, absinfo=(0, 0)):
     """observed: list of sympy values (Cartesian components / [divergence]) at pt.
     expected: list of sympy values or None (then only TLC decides)."""
     pairs = [fc.pair_of(v) for v in observed]
@@ -131,7 +136,7 @@ def _compare(out, key, op, given, info, pt, observed, expected=None, record=True
                                  f"expected {[str(v) for v in expected]}"))
     if record:
         if all(p is not None for p in pairs):
-            rec = {"op": op, "comps": given, "pt": pt.pairs, "val": pairs, "key": key}
+            rec = {"op": op, "comps": given, "abs": list(absinfo), "pt": pt.pairs, "val": pairs, "key": key}
             rec.update(info)
             out.records.append(rec)
         elif expected is None:
@@ -286,6 +291,79 @@ def replay_curv(case, pts_raw):
     return out.result()
 
 
+# ---- (d) radicals / absolute values of signed coordinates, points in all octants ------------------------
+def replay_abs(case):
+    """Emitted by FieldOps!AbsEmit: f = x^e * |x_v|^k, given as x^e * (x_v^2)^(k/2) in each system."""
+    if not CS:
+        _init()
+    out = Out(case)
+    a = case["abs"]
+    v, k, base = a["v"], a["k"], [[list(a["e"]), [1, 1]]]
+    pts = [fc.ExactPoint(p) for p in case["pts"]]
+    name = f"{fc.field_name([base])}*|{'xyz'[v - 1]}|^{k}"
+    for system in SYSTEMS:
+        key = f"grad:{system}:{name}"
+
+        def fn(q, system=system):
+            return fc.scalar_in(system, base, q) * (fc.cart_coords_in(system, q)[v - 1] ** 2) ** sp.Rational(k, 2)
+        g = _call(out, key, lambda system=system, fn=fn: lib_grad(system, fn))
+        if g is None:
+            continue
+        q = scalars(system)
+        for i, pt in enumerate(pts):
+            obs = [sp.nsimplify(sp.simplify(x)) for x in
+                   fc.rotate_back(system, [fc.eval_at(c, system, q, pt) for c in g], pt)]
+            _compare(out, key, "grad", [base], {"sys": system, "route": "d"}, pt, obs, _rat_list(case["grad"][i]),
+                     absinfo=(v, k))
+    return out.result()
+
+
+def _rad_fields():
+    h = sp.Rational(1, 2)
+    return {
+        "cyl": {"r*(z^2)^(3/2)": lambda q: q[0] * (q[2] ** 2) ** (3 * h),
+                "r^2*(z^2)^(1/2)*z": lambda q: q[0] ** 2 * (q[2] ** 2) ** h * q[2],
+                "sqrt(r^2+z^2)": lambda q: sp.sqrt(q[0] ** 2 + q[2] ** 2),
+                "(r^2+z^2)^(3/2)*z": lambda q: (q[0] ** 2 + q[2] ** 2) ** (3 * h) * q[2],
+                "((r*cos(theta))^2)^(3/2)": lambda q: ((q[0] * sp.cos(q[1])) ** 2) ** (3 * h)},
+        "sph": {"r^3*(cos(phi)^2)^(3/2)": lambda q: q[0] ** 3 * (sp.cos(q[2]) ** 2) ** (3 * h),
+                "r^2*cos(phi)*sqrt(cos(phi)^2)": lambda q: q[0] ** 2 * sp.cos(q[2]) * sp.sqrt(sp.cos(q[2]) ** 2),
+                "(r^2)^(3/2)*sin(phi)": lambda q: (q[0] ** 2) ** (3 * h) * sp.sin(q[2]),
+                "((r*sin(phi)*sin(theta))^2)^(3/2)": lambda q: ((q[0] * sp.sin(q[2]) * sp.sin(q[1])) ** 2) ** (3 * h)},
+    }
+
+
+def rad_cases(pts):
+    return [{"type": "rad", "sys": s, "field": f, "pts": pts} for s, d in _rad_fields().items() for f in d]
+
+
+def replay_rad(case):
+    """Non-polynomial scalar fields given natively in curvilinear coordinates: the library's gradient, rotated back,
+    against the Cartesian sympy.diff of the same field (decided by the harness, outside the TLC fragment)."""
+    if not CS:
+        _init()
+    out = Out(case)
+    system = case["sys"]
+    fn = _rad_fields()[system][case["field"]]
+    key = f"grad:{system}:{case['field']}"
+    g = _call(out, key, lambda: lib_grad(system, fn))
+    if g is None:
+        return out.result()
+    q = scalars(system)
+    cq = fc.curv_coords_of_cart(system)
+    # cos(phi), sin(phi), cos(theta), sin(theta) of the point are algebraic in x, y, z: write them so
+    cart_f = fn(cq).subs({sp.cos(fc.POL): fc.Z / fc.RAD, sp.sin(fc.POL): fc.RHO / fc.RAD,
+                          sp.cos(fc.AZ): fc.X / fc.RHO, sp.sin(fc.AZ): fc.Y / fc.RHO})
+    exp_cart = fc.cart_grad(cart_f)
+    for p in case["pts"]:
+        pt = fc.ExactPoint(p)
+        obs = [sp.simplify(x) for x in fc.rotate_back(system, [fc.eval_at(c, system, q, pt) for c in g], pt)]
+        exp = [sp.simplify(fc.cart_eval(x, pt)) for x in exp_cart]
+        _compare(out, key, "grad", None, {"sys": system, "route": "d"}, pt, obs, exp, record=False)
+        out.py_decided += 1
+    return out.result()
+
+
 # ---- thorough: the identities on generic smooth fields ---------------------------------------------------
 def generic_cases():
     cases = []
@@ -347,6 +425,10 @@ def replay_generic(case):
 
 def replay_any(case):
     t = case.get("type", "emit")
+    if "abs" in case:
+        return replay_abs(case)
+    if t == "rad":
+        return replay_rad(case)
     if t == "emit":
         return replay_emit(case)
     if t == "curv":
@@ -359,7 +441,7 @@ def _tlc_trace(sc, records, label):
     path = sc / f"c12_{label}.ndjson"
     with open(path, "w") as f:
         for r in records:
-            f.write(json.dumps({k: r[k] for k in ("op", "comps", "pt", "val")}) + "\n")
+            f.write(json.dumps({k: r[k] for k in ("op", "comps", "abs", "pt", "val")}) + "\n")
     cfg = write_cfg(sc / f"fo_trace_{label}.cfg", init="TInit", next_="TNext",
                     constants=dict(D=TRACE_D, MaxDeg=0, MaxTerms=0, EmitDeg=0, EmitTerms=0),
                     invariants=["Validate", "CurlGradZero", "DivCurlZero"], postcondition="AllSeen")
@@ -408,7 +490,8 @@ def collect(run: Run, results, label):
     for res in results:
         case = res["case"]
         run.traces += 1
-        run.count(json.dumps({k: v for k, v in case.items() if k not in ("pts", "grad", "div", "curl")}, sort_keys=True),
+        run.count(json.dumps({k: v for k, v in case.items() if k not in ("pts", "grad", "div", "curl")}, sort_keys=True,
+                             default=str),
                   n=res["calls"])
         if res["py_decided"]:
             run.coverage["decided_by_harness_outside_TLC_fragment"] = \
@@ -442,9 +525,10 @@ def main() -> int:
                          f"(monomials of degree <= {t['model']['MaxDeg']}, per component) and sums of <= "
                          f"{t['model']['MaxTerms']} of them")
         # 2. spec -> code
-        cfg2 = write_cfg(sc / "fo_emit.cfg", constants=t["emit"], invariants=["Emit"])
+        cfg2 = write_cfg(sc / "fo_emit.cfg", constants=t["emit"], invariants=["Emit", "AbsEmit"])
         res2 = run_tlc("FieldOps", cfg2, sc, workers=1, allow_violation=False)
-        emitted = res2.printed
+        abs_cases = [c for c in res2.printed if "abs" in c]
+        emitted = [c for c in res2.printed if "abs" not in c]
         run.add_tlc(res2, f"emission: basis fields of degree <= {t['emit']['EmitDeg']}, sums of <= "
                           f"{t['emit']['EmitTerms']}, values of grad/div/curl at 3 exact points")
         if not emitted:
@@ -464,6 +548,13 @@ def main() -> int:
             c["pts"] = pts
         results = list(pmap(pool, replay_any, ccases, chunk=8))
         records += collect(run, results, "curvilinear_monomial_fields_route_c")
+        # (d) radicals / absolute values at points of all octants
+        if not abs_cases:
+            raise RuntimeError("TLC emitted no absolute-value fields")
+        run.sample({"field": f"x^{abs_cases[0]['abs']['e']} * |x_{abs_cases[0]['abs']['v']}|^{abs_cases[0]['abs']['k']}",
+                    "points": abs_cases[0]["pts"], "grad": abs_cases[0]["grad"]}, limit=8)
+        results = list(pmap(pool, replay_any, abs_cases + rad_cases(abs_cases[0]["pts"]), chunk=1))
+        records += collect(run, results, "abs_and_radical_fields_all_octants_route_d")
         # 3. code -> spec
         rejected = set(validate_trace(run, sc, records, "all"))
         selftest_trace(run, sc, [r for i, r in enumerate(records, 1) if i not in rejected])
